@@ -37,7 +37,7 @@ impl Setup {
     }
     pub fn assemble(g: GraphSpec, name: String, sig: Vec<Vec<isize>>, kin: Kin) -> Option<Setup> {
         let sampler = DynSampler::build(&g, &sig).ok()?;
-        let tv = TableView::from_json(&sampler.json());
+        let tv = sampler.table_view();
         let go = GO::new(&g);
         let sec = Sector::new(&go)?;
         let sym = Symanzik::new(&go, &kin.ext_q(), &kin.masses_q());
